@@ -1,6 +1,7 @@
 import GoframeModel.Ops.Select
 import GoframeModel.Spec.Select
-import GoframeModel.Lemmas.Refine
+import GoframeModel.Lemmas.RefineA
+import GoframeModel.Lemmas.Shift
 /-
   C19 — Shift moves every column by the same offset and pads with nil.
   Property theorems only; helper lemmas live in GoframeModel/Lemmas.
@@ -13,29 +14,30 @@ mathematical one does, for every 64-bit offset, including `MinInt64` and `MaxInt
 theorem shift_wrap (i n p : Int) (hi : 0 ≤ i) (hin : i < n) (hn : n < 2 ^ 62) (hp : inInt64 p) :
     ((0 ≤ wrap64 (i - p) ∧ wrap64 (i - p) < n) ↔ (0 ≤ i - p ∧ i - p < n)) ∧
     ((0 ≤ i - p ∧ i - p < n) → wrap64 (i - p) = i - p) := by
-  sorry
+  exact wrap64_sub_iff hi hin hn hp
 
 /-- Row `i` of every column holds what row `i - p` held, `nil` outside the frame — for every 64-bit `p`. -/
 theorem shift_spec {f : Frame} {n : Nat} (hs : f.Sorted) (hr : f.RectN n) (p : Int)
     (hp : inInt64 p) (hn : (n : Int) < 2 ^ 62) :
     f.shift p = Spec.shiftSpec f p := by
-  sorry
+  exact shift_eq_spec hs hr p hp hn
 
 /-- cell-level reading of `shift_spec` -/
 theorem shift_cell {f : Frame} {n : Nat} (hr : f.RectN n) (p : Int) (hp : inInt64 p) (hn : (n : Int) < 2 ^ 62)
     (k : Str) (c : Col) (hk : (k, c) ∈ f) (i : Nat) (hi : i < n) :
     ∃ c', (k, c') ∈ f.shift p ∧ c'.name = k ∧ c'.data.length = n ∧
       c'.data.getD i .nil = (if 0 ≤ (i : Int) - p ∧ (i : Int) - p < n then c.data.getD ((i : Int) - p).toNat .nil else .nil) := by
-  sorry
+  exact ⟨_, mem_shift hk p, rfl, by rw [shiftCol_length]; exact (hr _ hk).1,
+    shiftCol_getD (hr _ hk).1 hn hp hi⟩
 
 /-- same shape: same column names, every column still `n` long and stored under its own name -/
 theorem shift_shape {f : Frame} {n : Nat} (hr : f.RectN n) (p : Int) :
     (f.shift p).keys = f.keys ∧ (f.shift p).RectN n := by
-  sorry
+  exact ⟨shift_keys f p, shift_rectN hr p⟩
 
 /-- `Shift(0)` is a copy -/
 theorem shift_zero {f : Frame} {n : Nat} (hr : f.RectN n) (hn : (n : Int) < 2 ^ 62) : f.shift 0 = f := by
-  sorry
+  exact shift_zero_eq hr hn
 
 /-- shifting by `p ≥ 0` and then by `-p` restores every row that was not pushed off the end, and the
 last `p` rows are `nil`; symmetrically for `p ≤ 0` -/
@@ -44,7 +46,18 @@ theorem shift_inverse {f : Frame} {n : Nat} (hr : f.RectN n) (p : Int) (hp : inI
     ∃ c', (k, c') ∈ (f.shift p).shift (-p) ∧
       c'.data.getD i .nil =
         (if 0 ≤ (i : Int) + p ∧ (i : Int) + p < n then c.data.getD i .nil else .nil) := by
-  sorry
+  refine ⟨_, mem_shift (mem_shift hk p) (-p), ?_⟩
+  have hl : c.data.length = n := (hr _ hk).1
+  have hl' : (shiftCol c.data p).length = n := by rw [shiftCol_length]; exact hl
+  rw [shiftCol_getD hl' hn hp' hi]
+  have e : (i : Int) - -p = (i : Int) + p := by omega
+  rw [e]
+  by_cases h : 0 ≤ (i : Int) + p ∧ (i : Int) + p < n
+  · have hj : ((i : Int) + p).toNat < n := by omega
+    have hc : 0 ≤ (((i : Int) + p).toNat : Int) - p ∧ (((i : Int) + p).toNat : Int) - p < n := by omega
+    have hi' : ((((i : Int) + p).toNat : Int) - p).toNat = i := by omega
+    rw [if_pos h, if_pos h, shiftCol_getD hl hn hp hj, if_pos hc, hi']
+  · rw [if_neg h, if_neg h]
 
 /-- non-vacuity: a concrete frame meets the hypotheses and a shift by MinInt64 blanks it -/
 example : (Frame.shift [([97], { name := [97], data := [.int .int 1, .int .int 2] })] (-(2 ^ 63))) =
